@@ -76,6 +76,7 @@ type Pos struct {
 	FieldTag   string `json:"field_tag,omitempty"`
 	Shape      string `json:"shape,omitempty"` // value | ptr | slice | map
 	Consumer   string `json:"consumer,omitempty"`
+	Upper      bool   `json:"upper_case_keys,omitempty"` // the raw document spells every key in upper case (encoding/json matches field names case-insensitively)
 	steps      []step
 }
 
@@ -302,13 +303,28 @@ func fill(v reflect.Value, p Pos, steps []step, tag, inst string, g *Registry) {
 func ExtRaw(ps []Pos, tag string, g *Registry) json.RawMessage {
 	m := map[string]interface{}{}
 	for _, p := range ps {
+		tls := func(inst string) map[string]interface{} {
+			t := g.add(p, tag, inst).tlsMap()
+			if !p.Upper {
+				return t
+			}
+			u := map[string]interface{}{}
+			for k, v := range t {
+				u[strings.ToUpper(k)] = v
+			}
+			return u
+		}
+		field := p.FieldTag
+		if p.Upper {
+			field = strings.ToUpper(field)
+		}
 		switch p.Shape {
 		case "slice":
-			m[p.FieldTag] = []interface{}{g.add(p, tag, "0").tlsMap(), g.add(p, tag, "1").tlsMap()}
+			m[field] = []interface{}{tls("0"), tls("1")}
 		case "map":
-			m[p.FieldTag] = map[string]interface{}{"k0": g.add(p, tag, "k0").tlsMap(), "k1": g.add(p, tag, "k1").tlsMap()}
+			m[field] = map[string]interface{}{"k0": tls("k0"), "k1": tls("k1")}
 		default:
-			m[p.FieldTag] = g.add(p, tag, "-").tlsMap()
+			m[field] = tls("-")
 		}
 	}
 	b, _ := json.Marshal(m)
